@@ -363,3 +363,15 @@ Definition c13_oracle (sc : scenario) (o : observation) : option bool :=
       end
   | _ => None
   end.
+
+(* ------------------------------------------------------------------ C06 on the model's final world: at quiescence every controller
+   whose subscriber has ended has an empty upstream map, and every observer made by such a controller is unsubscribed *)
+Definition closure_ok (w : world) : bool :=
+  forallb (fun c => let ct := ctls w c in
+                    if is_sub (obs w (c_sub ct)) then true else match c_uns ct with [] => true | _ => false end) (seq 0 (n_ctls w)) &&
+  forallb (fun o => match o_tgt (obs w o) with
+                    | THandler n _ _ => if Nat.ltb n (n_nodes w)
+                                        then is_sub (obs w (c_sub (ctls w (n_ctl (nodes w n))))) || negb (is_sub (obs w o))
+                                        else true
+                    | _ => true
+                    end) (seq 0 (n_obs w)).
